@@ -72,8 +72,8 @@ func recvFromPeer(t *testing.T, st *stream.Stream, want string) {
 }
 
 func peerApp(p *peer.Peer, s string) []byte {
-	b := refcodec.AppendInt(nil, 99)
-	return refcodec.AppendString(b, s, p.HasKey())
+	b := peer.AppendInt(nil, 99)
+	return peer.AppendString(b, s, p.HasKey())
 }
 
 func TestHonestServerPeerAgainstRealClient(t *testing.T) {
@@ -81,7 +81,7 @@ func TestHonestServerPeerAgainstRealClient(t *testing.T) {
 		for _, a := range levels {
 			for _, e := range levels {
 				t.Run(fmt.Sprintf("peer%s/%s-%s", pl, a, e), func(t *testing.T) {
-					ca, cb := wire.NewPipe("127.0.0.1:40001", "127.0.0.1:9618")
+					ca, cb := wire.C03NewPipe("127.0.0.1:40001", "127.0.0.1:9618")
 					p := peer.New(cb, peer.Config{Role: peer.Server, AuthLevel: pl, EncLevel: pl})
 					var wg sync.WaitGroup
 					wg.Add(1)
@@ -142,7 +142,7 @@ func TestHonestClientPeerAgainstRealServer(t *testing.T) {
 		for _, a := range levels {
 			for _, e := range levels {
 				t.Run(fmt.Sprintf("peer%s/%s-%s", pl, a, e), func(t *testing.T) {
-					ca, cb := wire.NewPipe("127.0.0.1:9618", "127.0.0.1:40002")
+					ca, cb := wire.C03NewPipe("127.0.0.1:9618", "127.0.0.1:40002")
 					p := peer.New(cb, peer.Config{Role: peer.Client, AuthLevel: pl, EncLevel: pl})
 					var wg sync.WaitGroup
 					wg.Add(1)
@@ -207,7 +207,7 @@ func TestHonestClientPeerAgainstRealServer(t *testing.T) {
 func TestResumeServerPeer(t *testing.T) {
 	cache := security.NewSessionCache()
 	cfg := realCfg(security.SecurityRequired, security.SecurityRequired, cache)
-	ca, cb := wire.NewPipe("127.0.0.1:40001", "127.0.0.1:9618")
+	ca, cb := wire.C03NewPipe("127.0.0.1:40001", "127.0.0.1:9618")
 	p := peer.New(cb, peer.Config{Role: peer.Server})
 	fin := make(chan error, 1)
 	go func() { fin <- p.Run() }()
@@ -225,7 +225,7 @@ func TestResumeServerPeer(t *testing.T) {
 		t.Fatalf("keys differ")
 	}
 	// second connection
-	ca2, cb2 := wire.NewPipe("127.0.0.1:40003", "127.0.0.1:9618")
+	ca2, cb2 := wire.C03NewPipe("127.0.0.1:40003", "127.0.0.1:9618")
 	p2 := peer.New(cb2, peer.Config{Role: peer.Server, Sessions: map[string]peer.Session{neg.SessionId: {Key: key}}})
 	var wg sync.WaitGroup
 	wg.Add(1)
@@ -258,7 +258,7 @@ func TestResumeServerPeer(t *testing.T) {
 
 // Resumption, peer = client: establishes with a real server, then resumes.
 func TestResumeClientPeer(t *testing.T) {
-	ca, cb := wire.NewPipe("127.0.0.1:9618", "127.0.0.1:40002")
+	ca, cb := wire.C03NewPipe("127.0.0.1:9618", "127.0.0.1:40002")
 	p := peer.New(cb, peer.Config{Role: peer.Client, AuthLevel: "REQUIRED"})
 	fin := make(chan error, 1)
 	go func() { fin <- p.Run() }()
@@ -275,7 +275,7 @@ func TestResumeClientPeer(t *testing.T) {
 	if sid != neg.SessionId {
 		t.Fatalf("sid mismatch")
 	}
-	ca2, cb2 := wire.NewPipe("127.0.0.1:9618", "127.0.0.1:40002")
+	ca2, cb2 := wire.C03NewPipe("127.0.0.1:9618", "127.0.0.1:40002")
 	p2 := peer.New(cb2, peer.Config{Role: peer.Client, Resume: &peer.Resume{Sid: sid, Key: p.Obs.Key}})
 	var wg sync.WaitGroup
 	wg.Add(1)
@@ -307,11 +307,11 @@ func TestResumeClientPeer(t *testing.T) {
 // The bytes two REAL endpoints exchange parse with the reference codec, and the
 // ads carry the attributes the peer relies on.
 func TestRealRealCaptureParses(t *testing.T) {
-	c1, r1 := wire.NewPipe("127.0.0.1:40001", "127.0.0.1:9618") // client <-> relay
-	r2, s1 := wire.NewPipe("127.0.0.1:40001", "127.0.0.1:9618") // relay <-> server
+	c1, r1 := wire.C03NewPipe("127.0.0.1:40001", "127.0.0.1:9618") // client <-> relay
+	r2, s1 := wire.C03NewPipe("127.0.0.1:40001", "127.0.0.1:9618") // relay <-> server
 	var mu sync.Mutex
 	var c2s, s2c []byte
-	pump := func(from, to *wire.PipeConn, rec *[]byte) {
+	pump := func(from, to *wire.C03PipeConn, rec *[]byte) {
 		buf := make([]byte, 65536)
 		for {
 			n, err := from.Read(buf)
@@ -355,7 +355,7 @@ func TestRealRealCaptureParses(t *testing.T) {
 	if len(cf) != 3 || len(sf) != 5 {
 		t.Fatalf("frames: %d client, %d server", len(cf), len(sf))
 	}
-	r := refcodec.Reader{B: cf[0].Body}
+	r := peer.Reader{B: cf[0].Body}
 	cmd, _ := r.Int()
 	ad, err := r.ReadAd()
 	if err != nil || cmd != peer.DCAuthenticate || r.Left() != 0 {
@@ -366,7 +366,7 @@ func TestRealRealCaptureParses(t *testing.T) {
 			t.Fatalf("client ad lacks %s: %s", k, ad)
 		}
 	}
-	r = refcodec.Reader{B: sf[0].Body}
+	r = peer.Reader{B: sf[0].Body}
 	sad, err := r.ReadAd()
 	if err != nil || r.Left() != 0 {
 		t.Fatalf("server ad: %v", err)
@@ -374,7 +374,7 @@ func TestRealRealCaptureParses(t *testing.T) {
 	if v, _ := sad.Str("Authentication"); v != "YES" {
 		t.Fatalf("server ad: %s", sad)
 	}
-	r = refcodec.Reader{B: cf[1].Body}
+	r = peer.Reader{B: cf[1].Body}
 	if m, _ := r.Int(); m != 2 {
 		t.Fatalf("bitmask %d", m)
 	}
